@@ -23,9 +23,9 @@ RULE = ("cases: one case = one bucket layout (0..6 buckets spread over up to 4 p
         "of the 1024) x one schedule: a list of slices, each with the answers to the `time is up` test (after each bucket "
         "and each prefix directory) and optionally a kill point (number of hook/save events after which the process dies); "
         "thorough: every set of at most 2 interruption points among the interesting ones (every bucket, every used prefix and "
-        "its neighbours, first and last prefix) for every layout (all distributions of 0..6 buckets over 3 prefix "
-        "directories and more), every subset for layouts of at most 2 buckets, and kills around every non-routine event of "
-        "every slice of the singly interrupted schedules (all of them up to 2 buckets, 6 per slice beyond); quick: a seeded "
+        "its neighbours, first and last prefix) for every layout of at most 4 buckets (all distributions of 0..6 buckets over "
+        "3 prefix directories and more; 24 sampled pairs beyond 4 buckets), every subset for layouts of at most 2 buckets, and kills around every non-routine event of "
+        "every slice of the singly interrupted schedules (all of them up to 2 buckets, 4 per slice beyond); quick: a seeded "
         "sample of the same; "
         "distinct = distinct (layout shape, schedule); non-trivial = a run that finishes at least one cycle after an "
         "interruption or a kill")
@@ -425,8 +425,8 @@ def run(ctx):
     if thorough:
         seenshape = set()
         li = 0
-        for ps, sizes in (([0, 500, 1023], range(0, 7)), ([0, 1, 2], (2, 3, 6)), ([1021, 1022, 1023], (1, 3, 6)),
-                          ([0, 1, 500, 1023], (4, 6)), ([511, 512], (2, 5))):
+        for ps, sizes in (([0, 500, 1023], range(0, 7)), ([0, 1, 2], (2, 3)), ([1021, 1022, 1023], (1, 3)),
+                          ([0, 1, 500, 1023], (4,)), ([511, 512], (2, 5))):
             for n in sizes:
                 for comp in compositions(n, len(ps)):
                     counts = {p: c for p, c in zip(ps, comp) if c}
@@ -467,13 +467,16 @@ def run(ctx):
         for p in singles:
             specs = schedule_from_points([p])
             slices, _ = batch.add(layout, specs, "one-interruption")
-            # kills in each slice of this schedule
+            # kills in each slice of this schedule (thorough: for interruptions at buckets and used prefixes)
+            cp = layout.checkpoints()[p]
+            if thorough and layout.n > 2 and cp[0] == "prefix" and not layout.buckets.get(cp[1]):
+                continue
             for sj in range(len(specs) - 1):
                 kp = interesting_kills(slices[sj], layout.watch())
                 if not thorough:
                     kp = ctx.rng("kill", li, p, sj).sample(kp, min(len(kp), 2))
-                elif layout.n > 2 and len(kp) > 6:
-                    kp = sorted(ctx.rng("kill", li, p, sj).sample(kp, 6))
+                elif layout.n > 2 and len(kp) > 4:
+                    kp = sorted(ctx.rng("kill", li, p, sj).sample(kp, 4))
                 for k in kp:
                     ks = list(specs)
                     ks[sj] = (specs[sj][0], k)
@@ -485,7 +488,10 @@ def run(ctx):
             small = layout.n <= 2 and len(pts) <= 9
             maxr = len(pts) if small else 2
             for rsize in range(2, maxr + 1):
-                for sub in itertools.combinations(pts, rsize):
+                subs = list(itertools.combinations(pts, rsize))
+                if layout.n > 4 and len(subs) > 24:
+                    subs = ctx.rng("pairs", li).sample(subs, 24)
+                for sub in subs:
                     batch.add(layout, schedule_from_points(sub, cycles_extra=0), "interruptions-%s" % ("subset" if rsize > 2 else "pair"))
         else:
             r = ctx.rng("multi", li)
